@@ -450,7 +450,7 @@ unsafe fn guarantee<RW: QueueRW<Pay>>(q: *const MultiQueue<RW, Pay>, kind: u8, a
         if kind != K_CAS {
             assert!(other_writers(q) == 0, "C01/C12: plain store to the claim counter while another sender is alive");
         }
-        assert!(G_K == 0 || old - true_min(q) < n, "C03: claim while N values are unconsumed by the slowest stream (window violated at the claim instant)");
+        assert!(G_K == 0 || old - true_min(q) < n, "C01/C03/C06: claim while N values are unconsumed by the slowest stream (window violated at the claim instant)");
         let slot = old & (n - 1);
         let mut s = 0;
         while s < n {
@@ -474,7 +474,7 @@ unsafe fn guarantee<RW: QueueRW<Pay>>(q: *const MultiQueue<RW, Pay>, kind: u8, a
         return;
     }
     if addr == &q.tail_cache as *const AtomicUsize as usize {
-        assert!(new <= true_min(q), "C03: cached tail ahead of the slowest stream");
+        assert!(new <= true_min(q), "C01/C03/C06: cached tail ahead of the slowest stream (the full test will then accept a send that overwrites a value that stream has not consumed)");
         if kind != K_CAS {
             assert!(other_writers(q) == 0, "C03/C12: plain store to the cached tail while another sender is alive");
         }
